@@ -138,7 +138,8 @@ def random_callset(rng, nsamples=None, nrecords=None, p_missing=None, p_multi=No
                      filt=None if rng.random() < 0.6 else ([rng.choice(filters)]),
                      info=info, extra_fmt=extra_fmt)
         records.append(rec)
-    return CallSet(samples, contigs, records, info_defs=info_defs, fmt_defs=fmt_defs, filters=filters)
+    return CallSet(samples, contigs, records, info_defs=info_defs, fmt_defs=fmt_defs, filters=filters,
+                   version=rng.choice(["4.3", "4.3", "4.2", "4.2", "4.1"]))
 
 
 def random_sample_map(rng, samples, npops=None, subset=True):
